@@ -93,6 +93,15 @@ CLAIMED["C17"] = {
     "engine": "E3",
 }
 
+CLAIMED["C04"] = {
+    "text": "For every group: the canonical members, the documented compositions of primitives and every alias (members, operators, tangent-side forms, "
+            "free functions) are the same computation for all inputs (identical hash-consed expression DAG in one execution, values and Jacobians); each free "
+            "function of functions.h instantiates (own translation unit); (X+t)-X = t and X+(Y-X) = Y by normal form for SO2, SE2, SO3, Rn.",
+    "note": "Trusted: tracer hash-consing, g++ instantiation over vs::Sym; REAL + A-TRIG/A-ATAN2 for the round trips. Round trips for the larger groups are a "
+            "consequence of C01+C03 (lemma). Views: C10.",
+    "technique": "contracts on the generic CRTP layer instantiated per group; same-execution DAG identity against the documented compositions; polynomial normal form for the round trips; per-function instantiation units",
+}
+
 NOT_APPLICABLE = {
     "C14": "quantifies over thread schedules; contract verification of one sequential call cannot express or decide data-race freedom (no thread model in any installed deductive back end for this C++ code) - see DESIGN.md section 5",
     "C19": "the oracle is the compiler's accept/reject verdict over a matrix of client programs, not a pre/postcondition of any function - see DESIGN.md section 5",
